@@ -161,14 +161,21 @@ def _generator_float_transform(s):
     import inspect
     import textwrap
     from jaqalpaq.generator import generator as G
-    fn = ast.parse(textwrap.dedent(inspect.getsource(G.generate_jaqal_value))).body[0]
+    # generate_jaqal_value first; if the float case was moved into a helper, every other function of the module
+    fns = [ast.parse(textwrap.dedent(inspect.getsource(G.generate_jaqal_value))).body[0]]
+    for node in ast.parse(inspect.getsource(G)).body:
+        if isinstance(node, ast.FunctionDef) and node.name != "generate_jaqal_value":
+            fns.append(node)
     branch = None
-    for n in ast.walk(fn):
-        if isinstance(n, ast.If):
-            t = ast.unparse(n.test)
-            if "float" in t and "isinstance(val" in t.replace(" ", "") and "Register" not in t:
-                branch = n
-                break
+    for fn in fns:
+        for n in ast.walk(fn):
+            if isinstance(n, ast.If):
+                t = ast.unparse(n.test)
+                if "float" in t and "isinstance(val" in t.replace(" ", "") and "Register" not in t:
+                    branch = n
+                    break
+        if branch is not None:
+            break
     if branch is None:
         raise Untranslatable("float branch of generate_jaqal_value not found")
     covers_int = "int" in ast.unparse(branch.test).replace("isinstance", "")
